@@ -291,3 +291,17 @@ mutant("C12-M7", "C12", "R12d", "single program returns the raw outcome", PR, "C
 mutant("C12-M8", "C12", "R12b", "nested branch removed", PR, "Covout.get_outcome", "elif self.cov_interaction == \"nested\":", "elif self.cov_interaction == \"nested_disabled\":")
 twin("C12-T1", "C12", "list(self._cached_progs) iteration", PR, "Covout.get_outcome", "        for prog in self._cached_progs.keys():", "        for prog in self._cached_progs:")
 twin("C12-T2", "C12", "len(self.progs) still allowed", PR, "Covout.get_outcome", "        if self.n_progs == 0:", "        n_defined = len(self.progs)\n        if self.n_progs == 0:")
+
+# =============================================================================================== C13
+RS = "atomica/results.py"
+mutant("C13-M1", "C13", "R13a", "Result.get_coverage passes no instructions", RS, "Result.get_coverage", "capacities = self.model.progset.get_capacities(tvec=self.t, dt=self.dt, instructions=self.model.program_instructions)", "capacities = self.model.progset.get_capacities(tvec=self.t, dt=self.dt)")
+mutant("C13-M2", "C13", "R13b", "number conversion * dt", M, "Model.update_pars", "par[ti] *= par.source_popsize(ti) / self.dt", "par[ti] *= par.source_popsize(ti) * self.dt")
+mutant("C13-M3", "C13", "R13c", "program store without the membership test", M, "Model.update_pars", "                    if (par.name, par.pop.name) in prog_vals:\n", "                    if True:\n")
+mutant("C13-M5", "C13", "R13a", "reporter computes eligible from a different target list", RS, "Result.get_coverage", "                    for comp_name in prog.target_comps:", "                    for comp_name in prog.target_pars:")
+mutant("C13-M6", "C13", "R13b", "rate conversion dropped", M, "Model.update_pars", "                            par[ti] /= self.dt\n", "                            pass\n")
+mutant("C13-M7", "C13", "R13a", "integrator uses the capacity of the previous step", M, "Model.update_pars", "self._program_cache[\"capacities\"][k][ti], n)", "self._program_cache[\"capacities\"][k][ti - 1], n)")
+mutant("C13-M8", "C13", "R13a", "reporter recomputes capacities with a different dt", RS, "Result.get_coverage", "get_capacities(tvec=self.t, dt=self.dt, instructions=self.model.program_instructions)", "get_capacities(tvec=self.t, dt=1.0, instructions=self.model.program_instructions)")
+mutant("C13-M9", "C13", "R13c", "value read under a different population", M, "Model.update_pars", "                            par[ti] = prog_vals[(par.name, par.pop.name)]", "                            par[ti] = prog_vals[(par.name, pars[0].pop.name)]")
+mutant("C13-M10", "C13", "R13a", "get_prop_coverage bypasses get_prop_covered", PR, "ProgramSet.get_prop_coverage", "prop_coverage[prog.name] = prog.get_prop_covered(tvec, capacities[prog.name], num_eligible[prog.name])", "prop_coverage[prog.name] = capacities[prog.name] / num_eligible[prog.name]")
+twin("C13-T1", "C13", "arguments passed by keyword in another order", RS, "Result.get_coverage", "get_capacities(tvec=self.t, dt=self.dt, instructions=self.model.program_instructions)", "get_capacities(instructions=self.model.program_instructions, dt=self.dt, tvec=self.t)")
+twin("C13-T2", "C13", "arguments passed positionally", RS, "Result.get_coverage", "get_capacities(tvec=self.t, dt=self.dt, instructions=self.model.program_instructions)", "get_capacities(self.t, self.dt, self.model.program_instructions)")
